@@ -8,6 +8,7 @@ import OPModel.Drive.C07
 import OPModel.Drive.C20
 import OPModel.Drive.C03
 import OPModel.Drive.C02
+import OPModel.Drive.C16
 
 open OP
 
@@ -22,6 +23,8 @@ def handle (line : String) : String :=
   | "entu" :: args => Drive.entu args
   | "assign" :: args => Drive.assign args
   | "site" :: args => Drive.site args
+  | "sheets" :: args => Drive.sheets args
+  | "wrapper" :: args => Drive.wrapper args
   | "pinch" :: args => Drive.pinch args
   | "pincht" :: args => Drive.pincht args
   | _ => "bad-op"
